@@ -155,6 +155,54 @@ fn main() {
             let agg = core::run_batch_local(engine.as_ref(), &cfg);
             println!("{}", agg.to_json());
         }
+        Some("hashes") => {
+            // hashes <engine> <property> <n> [thorough]: print "index history-hash violations" for runs 0..n (determinism self-test)
+            let engine = engine_by_name(&args[1]).expect("engine");
+            let property = static_prop(&args[2]);
+            let n: u64 = args[3].parse().unwrap();
+            let thorough = args.get(4).map(|s| s == "thorough").unwrap_or(false);
+            let seed: u64 = std::env::var("VERIF_SEED").ok().and_then(|s| s.parse().ok()).unwrap_or(1);
+            let cfg = BatchCfg {
+                property,
+                thorough,
+                seed,
+                runs: n,
+                threads: 1,
+                max_wall_s: 1e9,
+                verif_dir: verif_dir(),
+                label: engine.name().to_string(),
+                shard: (0, 1),
+            };
+            let nthreads = threads();
+            let results: std::sync::Mutex<Vec<(u64, u64, usize)>> = std::sync::Mutex::new(Vec::new());
+            let next = std::sync::atomic::AtomicU64::new(0);
+            std::thread::scope(|s| {
+                for _ in 0..nthreads {
+                    s.spawn(|| loop {
+                        let idx = next.fetch_add(1, std::sync::atomic::Ordering::Relaxed);
+                        if idx >= n {
+                            break;
+                        }
+                        let mut ch = Choices::from_seed(core::run_seed(&cfg, idx));
+                        let ctx = RunCtx {
+                            property,
+                            thorough,
+                            want_trace: false,
+                        };
+                        let (h, v) = match core::run_once(engine.as_ref(), &mut ch, &ctx) {
+                            Ok(o) => (o.trace_hash, o.violations.len()),
+                            Err(_) => (0, usize::MAX),
+                        };
+                        results.lock().unwrap().push((idx, h, v));
+                    });
+                }
+            });
+            let mut r = results.into_inner().unwrap();
+            r.sort();
+            for (i, h, v) in r {
+                println!("{i} {h:016x} {v}");
+            }
+        }
         Some("replay") => {
             let path = PathBuf::from(args.get(1).expect("replay <file>"));
             let doc = match core::read_replay(&path) {
